@@ -409,7 +409,7 @@ func (s *snapshot) text() string {
 	fmt.Fprintf(&b, ";scapply=%s;scupd=%s;scquit=[%s];sc=%s", mapStrNum(s.scapply), mapStrNum(s.scupd), strings.Join(q, ","), mapStrNum(s.sc))
 	fmt.Fprintf(&b, ";rl=[%s];rlapply=%s;rlrm=%s;rlaid=%s;rlrid=%s", strings.Join(s.rl, ","), mapStrNum(s.rlapply), mapStrNum(s.rlrm), s.rlaid, s.rlrid)
 	fmt.Fprintf(&b, ";sv=%s;svapply=%s;svrm=%s;svaid=%s;svrid=%s", s.sv, mapStrNum(s.svapply), mapStrNum(s.svrm), s.svaid, s.svrid)
-	fmt.Fprintf(&b, ";sig=%s;vote=%s", mapStr(s.sig), mapStr(s.vote))
+	fmt.Fprintf(&b, ";sig=%s;vote=%s;perm=[%s]", mapStr(s.sig), mapStr(s.vote), permittedText())
 	if len(s.unknown) > 0 {
 		fmt.Fprintf(&b, ";unknown=[%s]", strings.Join(s.unknown, ","))
 	}
